@@ -56,6 +56,15 @@ def bc_transform(text):
     return t
 
 
+def bc_stats(text):
+    """How many bounds-check switches the source has, and how many are still off
+    after the transform (must be 0 for the bc build to mean anything)."""
+    t = bc_transform(text)
+    off = len(re.findall(r"boundscheck\s*(\(|=)\s*False", t))
+    on = len(re.findall(r"boundscheck\s*(\(|=)\s*True", t))
+    return {"boundscheck_on": on, "boundscheck_still_off": off}
+
+
 FLAGS = {
     "plain": ("gcc", ["-O2", "-fno-strict-overflow", "-fPIC", "-w"], ["-shared"]),
     "bc": ("gcc", ["-O1", "-fno-strict-overflow", "-fPIC", "-w"], ["-shared"]),
@@ -145,6 +154,8 @@ class Shadow:
                 shutil.copy2(os.path.join(self.src, name), os.path.join(pkg, name))
         so = compile_kernel(os.path.join(self.src, "set_operations.pyx"), variant)
         shutil.copy2(so, os.path.join(pkg, "set_operations" + EXT_SUFFIX))
+        with open(os.path.join(self.src, "set_operations.pyx")) as f:
+            self.bc = bc_stats(f.read())
         self.pkg = pkg
 
     def env(self, extra=None):
@@ -153,6 +164,7 @@ class Shadow:
         env["PYTHONHASHSEED"] = "0"
         env["CATII_SHADOW"] = self.root
         env["CATII_VARIANT"] = self.variant
+        env["CATII_BC_STATS"] = "%d,%d" % (self.bc["boundscheck_on"], self.bc["boundscheck_still_off"])
         env["PYTHONDONTWRITEBYTECODE"] = "1"
         env.setdefault("OMP_NUM_THREADS", "1")
         env.setdefault("OPENBLAS_NUM_THREADS", "1")
